@@ -64,12 +64,12 @@ void ResamplingWithPrior::resample(const ParticleSet& cor_particles, ParticleSet
     int num_resample_particles = cor_particles.state().cols() - num_prior_particles;
 
     /* Consider two subsets of particles. */
-    ParticleSet res_particles_left(num_prior_particles, cor_particles.dim_linear, cor_particles.dim_circular);
-    ParticleSet res_particles_right(num_resample_particles, cor_particles.dim_linear, cor_particles.dim_circular);
+    ParticleSet res_particles_left(num_prior_particles, cor_particles.dim_linear, cor_particles.dim_circular, cor_particles.use_quaternion);
+    ParticleSet res_particles_right(num_resample_particles, cor_particles.dim_linear, cor_particles.dim_circular, cor_particles.use_quaternion);
     Ref<VectorXi> res_parents_right(res_parents.tail(num_resample_particles));
 
     /* Copy particles to be resampled in a temporary. */
-    ParticleSet tmp_particles(num_resample_particles, cor_particles.dim_linear, cor_particles.dim_circular);
+    ParticleSet tmp_particles(num_resample_particles, cor_particles.dim_linear, cor_particles.dim_circular, cor_particles.use_quaternion);
     int j = 0;
     for (std::size_t i : sort_indices(cor_particles.weight().array().exp()))
     {
